@@ -168,3 +168,60 @@ def run(ctx):
                     s = rng.choice(st)
                     w.stores[s].v = w.stores[s].t = None
     tc.eval_model()
+
+
+_run_before_shared_store = run
+
+
+def run(ctx):
+    shared_store(ctx)
+    _run_before_shared_store(ctx)
+
+
+def shared_store(ctx):
+    """ONE store object registered for two nodes: a source read before and a source read after a call that updates the store as
+    a side effect (ordered by add_dependency; the second source is out of date because of fresh_time).  Every registered node
+    gets its own read, ordered by its own constraints: the consumer of the second source sees the updated content."""
+    import datetime as dt
+    uj = core.use_repo()
+
+    class State(uj.ValueStore):
+        def __init__(self):
+            self.content, self.t = "OLD", dt.datetime(2020, 1, 1)
+
+        def read(self):
+            return ("read", self.content)
+
+        def write(self, v):
+            raise AssertionError("sources are not written")
+
+        def get_modified_time(self):
+            return self.t
+    for workers in (1, 3):
+        for order in ("before-first", "after-first"):
+            st = State()
+            plan, reg = uj.Plan(), uj.Registry()
+            if order == "before-first":
+                before = reg.source(plan, st)
+                after = reg.source(plan, st)
+            else:
+                after = reg.source(plan, st)
+                before = reg.source(plan, st)
+
+            def update(old):
+                import time
+                time.sleep(0.05)
+                st.content, st.t = "NEW", dt.datetime(2020, 6, 1)
+                return "updated"
+            upd = plan.call(update, before)
+            plan.add_dependency(upd, after)
+            seen = plan.call(lambda b, a: (b, a), before, after)
+            ctx.case(("c09-shared-store", workers, order))
+            try:
+                got = uj.run(plan, registry=reg, output=seen, fresh_time=dt.datetime(2020, 3, 1), max_workers=workers, progress=None)
+            except BaseException as e:      # noqa
+                got = "raised %r" % (e,)
+            want = (("read", "OLD"), ("read", "NEW"))
+            if got != want:
+                ctx.fail("shared-store:read-order", "one store registered for two source nodes, the second ordered after an updating call: consumer received %r, "
+                         "expected %r" % (got, want), {"max_workers": workers, "registration_order": order})
